@@ -142,7 +142,7 @@ func H_C01_VerifyScript() {
 		pkScr = p2sh(redeems[k-6])
 	}
 	var sigScr []byte
-	switch k := zzverif.Enum("scriptSig", 6+2*len(redeems)); {
+	switch k := zzverif.Enum("scriptSig", 6+3*len(redeems)); {
 	case k == 0:
 	case k == 1:
 		sigScr = []byte{0x51}
@@ -156,9 +156,12 @@ func H_C01_VerifyScript() {
 		sigScr = []byte{0x51, 0x61, 0x01, 0x51} // not push-only, ends with a push of the redeem script OP_1
 	case k < 6+len(redeems):
 		sigScr = ref_push(redeems[k-6])
-	default:
+	case k < 6+2*len(redeems):
 		r := redeems[k-6-len(redeems)]
 		sigScr = append(append([]byte{0x51}, 0x4c, byte(len(r))), r...) // an extra element and a non-minimal push
+	default:
+		r := redeems[k-6-2*len(redeems)]
+		sigScr = append([]byte{0x4c, byte(len(r))}, r...) // the redeem script alone, pushed with OP_PUSHDATA1
 	}
 	var flags uint32
 	if zzverif.Bool("P2SH") {
@@ -404,4 +407,68 @@ func h_flat_ser(st [][]byte) []byte {
 		buf.Write(e)
 	}
 	return buf.Bytes()
+}
+
+
+// C01: the taproot script-path gates with everything real except the commitment verdict (an uninterpreted function,
+// imposed natively through the btc.Check_PayToContract hook): witness = [script OP_1, control block] with an optional
+// annex, control blocks of 32..66 bytes and both leaf-version classes, TAPROOT on, the two DISCOURAGE flags arbitrary.
+// A narrow companion of H_C01_WitnessProgram whose counterexamples replay natively.
+func H_C01_TaprootScriptPath() {
+	DBG_ERR = false
+	defer func() { btc.Check_PayToContract = nil }()
+	program := make([]byte, 32)
+	program[0] = 0x42
+	scr := []byte{0x51}
+	clen := []int{32, 33, 34, 64, 65, 66, 97}[zzverif.Enum("control-len", 7)]
+	control := make([]byte, clen)
+	control[0] = zzverif.U8("control-first-byte")
+	commitFn := func() bool {
+		in := append(append(append([]byte{byte(len(control)), byte(len(control) >> 8)}, control...), program...), scr...)
+		return zzverif.Fn("commitment-verdict", 1, in)[0]&1 == 1
+	}
+	if zzverif.Symbolic() {
+		zzverif.Replace("btc.CheckPayToContract", func(q, p, k []byte, parity bool) bool { return commitFn() })
+	} else {
+		btc.Check_PayToContract = func(q, p, k []byte, parity bool) bool { return commitFn() }
+	}
+	wst := [][]byte{scr, control}
+	annex := zzverif.Bool("annex")
+	if annex {
+		wst = append(wst, []byte{0x50, zzverif.U8("annex-body")})
+	}
+	flags := uint32(VER_TAPROOT)
+	if zzverif.Bool("DISCOURAGE_UPGRADABLE_TAPROOT_VERSION") {
+		flags |= VER_DIS_TAPVER
+	}
+	if zzverif.Bool("DISCOURAGE_OP_SUCCESS") {
+		flags |= VER_DIS_SUCCESS
+	}
+	var w witness_ctx
+	for _, it := range wst {
+		w.stack.push(it)
+	}
+	checker := &SigChecker{Tx: h_sig_tx(), Idx: 0, Amount: 5}
+	got := checker.VerifyWitnessProgram(&w, 1, program, flags, false)
+	// reference (interpreter.cpp): control size, commitment, leaf version; the script OP_1 leaves exactly [1]
+	want := false
+	if !annex && control[0] == 0x50 {
+		// the last witness item starts with the annex tag: it IS the annex, and [script] alone is a key-path spend
+		// with the one-byte "signature" OP_1, which no size gate lets through
+		want = false
+	} else if clen >= 33 && clen <= 33+32*128 && (clen-33)%32 == 0 {
+		if commitFn() {
+			if control[0]&0xfe == 0xc0 {
+				want = true
+			} else {
+				want = flags&VER_DIS_TAPVER == 0
+			}
+		}
+	}
+	zzverif.Assert("C01.taproot-script-path.verdict", got == want)
+	if got {
+		zzverif.Reach("accepted")
+	} else {
+		zzverif.Reach("refused")
+	}
 }
